@@ -17,7 +17,8 @@ EXPLANATION = (
 DECIDED = ["R12a writer/reader tag, placement (inline / out-of-line / mixed) and payload codec agreement (TABLE, 9 rows)",
            "R12b DbValueIndex layout constants (TABLE)",
            "R12c f64 path is a bit move (no arithmetic)",
-           "R23b cursor discipline of the file-only variant (shared with C23)"]
+           "R23b cursor discipline of the file-only variant (shared with C23)",
+           "R12d every other writer of a type tag encodes the payload like store_db_value (SIBLING)"]
 UNDECIDED = ["the round trip itself on concrete values (needs execution)",
              "String read inline goes through from_utf8_lossy: lossless only because a Rust String is valid UTF-8 "
              "and the inline bytes are the untruncated string (not decided structurally)",
@@ -286,6 +287,73 @@ def consts_of(b, kinds, ops):
     return out
 
 
+def sibling_writers_rule(ctx, wt_main, rule="R12d"):
+    """Every function that writes a type tag (DbValueIndex::set_type) next to an out-of-line store must encode the payload
+    exactly as store_db_value does for that tag: raw bytes (insert_bytes / replace_with_bytes) for Bytes, the serialized
+    form (insert::<T> / replace::<T>) for the others.  A second writer that re-uses a storage slot with the other encoder
+    produces a value load_db_value cannot decode."""
+    fa = ctx.facts
+    main_by_tag = {}
+    for name, row in (wt_main or {}).items():
+        if len(row["tags"]) == 1 and row["tags"][0] is not None:
+            main_by_tag[row["tags"][0]] = (name, row["payload"])
+    RAW = ("insert_bytes", "replace_with_bytes", "insert_bytes_at")
+    SER = ("insert", "replace", "insert_at")
+    n = 0
+    for b in sorted(fa.bodies.values(), key=lambda x: x.path):
+        if b.crate != "agdb" or common.norm(b.npath) == DV + "::store_db_value" or "::tests::" in b.path:
+            continue
+        st_calls = [(i, t) for i, t in cfg.calls(b) if common.norm(cfg.callee(t) or "") == VI + "set_type"]
+        if not st_calls:
+            continue
+        if common.norm(b.npath).startswith(VI):
+            continue        # the accessor itself and its unit-level helpers
+        n += 1
+        # regions: per arm of a `match` on a DbValue, else the whole body
+        sw = None
+        for i, blk in enumerate(b.blocks):
+            t = blk["term"]
+            if t["k"] != "switch":
+                continue
+            pl = cfg.op_place(t["d"])
+            ds = cfg.defs(b).get(pl[0], []) if pl else []
+            if ds and ds[0][0] == "assign" and ds[0][2]["k"] == "discr" and ds[0][2].get("enum") == DV:
+                sw = (i, t)
+                break
+        regs = regions(b, sw[0], sw[1]) if sw else {None: set(range(len(b.blocks)))}
+        for v, reg in regs.items():
+            tags = []
+            for i, t in st_calls:
+                if i in reg:
+                    c = cfg.op_const(t["a"][1]) if len(t["a"]) > 1 else None
+                    tags.append(c.get("v") if c else None)
+            if len(set(tags)) != 1 or tags[0] is None:
+                continue
+            only = set(reg)
+            for v2, r2 in regs.items():
+                if v2 != v:
+                    only -= r2
+            enc = set()
+            for i, t in cfg.calls(b):
+                if i not in only:
+                    continue
+                c = cfg.callee(t) or ""
+                if c.startswith(ST) and last(c) in RAW:
+                    enc.add("bytes")
+                elif c.startswith(ST) and last(c) in SER:
+                    enc.add(generic_arg(cfg.callee_full(t)) or "serialized")
+            if not enc:
+                continue
+            name, want = main_by_tag.get(tags[0], (None, None))
+            ok = want is not None and enc == {want}
+            ctx.ob(rule, "%s:tag%s" % (common.norm(b.npath).split("::")[-1], tags[0]), ok,
+                   "tag %s (%s) payload encoded as %s, like store_db_value" % (tags[0], name, want) if ok else
+                   "`%s` stores a value with type tag %s (%s in store_db_value, payload `%s`) through %s: load_db_value "
+                   "decodes that tag with the other codec" % (common.norm(b.npath), tags[0], name, want, sorted(enc)),
+                   b.loc(st_calls[0][0]))
+    ctx.note("R12d: %d additional writer(s) of type tags next to store_db_value" % n)
+
+
 def run(ctx):
     fa = ctx.facts
     w = ctx.anchor("R12a", DV + "::store_db_value")
@@ -377,6 +445,8 @@ def run(ctx):
         ctx.floor("R12a", "writer arms", len(wt), 9)
         ctx.floor("R12a", "reader arms", len(rt), 9)
 
+    sibling_writers_rule(ctx, wt)
+
     # ---------------- R12b
     fn = {}
     for n in ("set_value", "size", "set_size", "get_type", "set_type", "is_value", "set_index", "value", "index"):
@@ -388,12 +458,15 @@ def run(ctx):
         guard = None
         for bi, s in cfg.assigns(b):
             rv = s["r"]
-            if rv["k"] == "bin" and rv["op"] in ("Gt", "Ge") and cfg.op_place(rv["a"]) and cfg.op_place(rv["a"])[0] in lens:
+            if rv["k"] == "bin" and rv["op"] in ("Gt", "Ge", "Le", "Lt") and cfg.op_place(rv["a"]) and cfg.op_place(rv["a"])[0] in lens:
                 c = cfg.op_const(rv["b"])
                 if c and "v" in c:
-                    lim = c["v"] if rv["op"] == "Gt" else c["v"] - 1
+                    # `len > 15` / `len >= 16` reject when true; `len <= 15` / `len < 16` accept when true
+                    lim = c["v"] if rv["op"] in ("Gt", "Le") else c["v"] - 1
                     sws = cfg.bool_switches(b, cfg.derived_locals(b, [s["l"][0]]))
                     guard = sws[0] if len(sws) == 1 else None
+                    if guard is not None and rv["op"] in ("Le", "Lt"):
+                        guard = {"true_edge": guard["false_edge"], "false_edge": guard["true_edge"]}     # in reject-if terms
         ss = calls_in(b, set(range(len(b.blocks))), VI + "set_size")
         cp = [i for i, t in cfg.calls(b) if last(cfg.callee(t)) == "copy_from_slice"]
         ok = lim is not None and guard is not None and bool(ss) and bool(cp)
